@@ -88,6 +88,11 @@ CLAIMED = {
   "Trusted: Lean kernel + standard axioms; git itself (exercised); the reference state tracker harness/refimpl.py judges the implementation. Tag names git refuses (patterns with ~ ^ : ? * [ \\ or blanks) cannot be tagged at all and are excluded from the histories.",
   "Lean 4 proof (invariant by induction over histories; refinement of C01/C09) + real-git history runs",
   "DESIGN.md section 7, C08"),
+ "C02": (
+  "PARTIAL. Lean 4 theorems C02_* tie bumpver's two hand-written tables together on the REGENERATED tables: every value a part can take is rendered (PART_FORMATS, classified from the formatter's Python AST) to text that the part's own regex (PART_PATTERNS, parsed by the model's regex-syntax parser) consumes in full — alone, before a non-digit continuation (maximal munch; longest alternative first is CHECKED) and, for fixed-width parts, before a digit — and that reads back as the same value: finite calendar domains by kernel evaluation over the whole domain (months, days, days of year, quarters, weeks, two-digit years), unbounded numeric parts and BUILD by induction on digit lists, years by the four-digit lemma, tags over the tag tables; cal_info's outputs lie inside those domains for EVERY valid date (C02_calinfo_domains) except week 53 (C02_week53_witness = known finding), INC1 stays positive under bumps. The composition over whole patterns (separators, adjacency, nested optional groups) is validated, not proved: ops format/parse on grammar patterns and the render -> parse -> fields equal -> re-render identical -> next-run oracle on the implementation, thorough tier every date 2001..2099 through every calendar part.",
+  "Trusted: Lean kernel + standard axioms; translator (both tables, formatter shapes); Python re modelled on the fragment; the pattern-level composition rests on the correspondence and the oracle. Week 53 under WW/0W/UU/0U: known finding F-C02-week53.",
+  "Lean 4 proof per part over regenerated tables (decide +kernel on whole domains, induction on digit lists) + correspondence + round-trip oracle",
+  "DESIGN.md section 7, C02"),
 }
 
 PENDING_REASON = "not yet covered: model/theorems for this property are still being built (see DESIGN.md section 10 for the order of work); no check is claimed until its theorems are proved and tied to the code"
